@@ -54,7 +54,10 @@ def run_sheets(ctx, seed_salt, features, n_quick, n_thorough, depth=3, all_opts=
 def replay(case):
     inp = case['input']
     with impl.Pool(1) as pool:
-        a = pool.run([{'kind': 'compile', 'text': inp['text'], 'opts': SC.impl_opts(inp.get('opts', {}))}])[0]
+        if 'preceded_by' in inp:       # the rejected compilation that ran just before, in the same process
+            a = pool.run([{'kind': 'compile_many', 'texts': [inp['preceded_by'], inp['text']], 'opts': SC.impl_opts(inp.get('opts', {}))}])[0]['results'][-1]
+        else:
+            a = pool.run([{'kind': 'compile', 'text': inp['text'], 'opts': SC.impl_opts(inp.get('opts', {}))}])[0]
     return {'input': inp, 'impl_now': a, 'spec_expected_items': case.get('spec'), 'model_expected': case.get('model'), 'still_fails': None}
 
 
